@@ -12,6 +12,11 @@ import sys
 
 ROOT = os.path.dirname(os.path.dirname(os.path.abspath(__file__)))
 HINTS = {
+    'm12': ('prefer a clause of the statement or a part of the quantified domain that none of them touches; re-read the '
+            'statement word by word and pick the clause that looks least likely to be checked by a test harness that '
+            'already knows all the ideas above; think of conditions on the VALUES involved (signs, zeros, ties, exact '
+            'equality of two inputs, symmetry, very unequal magnitudes in one input), of what a caller may do between two '
+            'calls that are individually fine, and of rarely used but documented parameters and return values'),
     'm11': ('prefer a clause of the statement or a part of the quantified domain that none of them touches; look at the '
             'upper and lower ends of the quantified domain (the largest sizes, budgets and counts it names, the smallest '
             'ones: one atom, one residue, one record, one step), at branches of the anchored code that ordinary inputs never '
